@@ -3,15 +3,15 @@ C13 (x86 validation leg): the validator model of Model/X86Validate.lean (tied to
 every database instance and its near-miss mutations) accepts every ISA-database form AsmJit implements in the modes the
 database allows, and refuses it in a mode the database excludes.
 
-Quantifier: the rows of Gen/X86Forms.lean - one representative instantiation (tools/x86forms.py) per database form of
+Quantifier: the rows of Gen/X86Bucket*.lean - one representative instantiation (tools/x86forms.py) per database form of
 db/isa_x86.json that the pinned release accepts (vendored lean/implemented_forms.txt), in a mode the form's `arch` allows,
 and every instantiation in a mode no form with these operands allows. The tables `_inst_signature_table`,
 `_op_signature_table` and the per-instruction rows come from the compiler (Gen/X86Sig.lean). All instantiations (not only
 one per form) are judged by the same model in the compiled driver on every run (tools/props/c13.py).
 -/
-import AsmjitVerif.Gen.X86FormsCheckedAll
+import AsmjitVerif.Gen.X86FormsLink
 namespace AsmjitVerif.C13X86
-open AsmjitVerif.X86Validate AsmjitVerif.X86Forms AsmjitVerif.Gen.X86Forms
+open AsmjitVerif.X86Validate AsmjitVerif.X86Forms AsmjitVerif.Gen.X86FormsLink
 
 /-- the constants Model/X86Validate.lean spells out are the compiler's -/
 theorem consts_agree : AsmjitVerif.Gen.X86Sig.consts =
@@ -24,33 +24,23 @@ theorem consts_agree : AsmjitVerif.Gen.X86Sig.consts =
      ("rtMask", rtMask), ("rtMm", rtMm), ("rtNone", rtNone), ("rtPC", rtPC), ("rtSegment", rtSegment), ("rtSt", rtSt), ("rtTile", rtTile),
      ("rtVec128", rtVec128), ("rtVec256", rtVec256), ("rtVec512", rtVec512)] := by decide
 
-/-- every implemented database form is accepted by strict validation in a mode the database allows -/
-theorem sig_covers_db : ∀ c ∈ allowChunks, ∀ row ∈ unpack c, ∃ inst ops, decodeInstance row = some (inst, ops) ∧
-    validate AsmjitVerif.Gen.X86Sig.tables inst ops = .ok := by
-  intro c hc row hr
-  have h := AsmjitVerif.Gen.X86FormsChecked.allow_all c hc
-  simp only [allAccepted, List.all_eq_true] at h
-  have := h row hr
-  unfold accepted at this
-  split at this
-  · rename_i i ops he; exact ⟨i, ops, he, by simpa using this⟩
-  · exact absurd this (by simp)
+/-- Every row of every bucket of Gen/X86Bucket*.lean, stated about the validator over the full regenerated tables:
+    an implemented database form instantiated in a mode the database allows (`exp = 1`) is accepted by strict validation,
+    an instantiation in a mode no form with these operands allows is refused. The buckets are proved module by module
+    (`bucket_ok`, over a copy of the instruction data) and tied to the tables by `resolvedK`. -/
+theorem sig_covers_db_and_excludes : ∀ b ∈ buckets, ∀ row ∈ unpack b.2, ∃ exp rest inst ops,
+    row = exp :: rest ∧ decodeInstance rest = some (inst, ops) ∧
+    (exp = 1 → validate AsmjitVerif.Gen.X86Sig.tables inst ops = .ok) ∧
+    (exp ≠ 1 → validate AsmjitVerif.Gen.X86Sig.tables inst ops ≠ .ok) := by
+  intro b hb row hr
+  have ⟨h1, h2⟩ := all_ok b hb
+  simp only [bucketOk, List.all_eq_true] at h2
+  exact rowOk_sound _ _ h1 row (h2 row hr)
 
-/-- and refused in a mode the database excludes -/
-theorem sig_excludes : ∀ c ∈ excludeChunks, ∀ row ∈ unpack c, ∃ inst ops, decodeInstance row = some (inst, ops) ∧
-    validate AsmjitVerif.Gen.X86Sig.tables inst ops ≠ .ok := by
-  intro c hc row hr
-  have h := AsmjitVerif.Gen.X86FormsChecked.exclude_all c hc
-  simp only [allRefused, List.all_eq_true] at h
-  have := h row hr
-  unfold refused at this
-  split at this
-  · rename_i i ops he; exact ⟨i, ops, he, by simpa using this⟩
-  · exact absurd this (by simp)
-
--- non-vacuity: there are thousands of rows, and a row decodes to a real instruction
+-- non-vacuity: there are thousands of rows of both kinds, and a row decodes to a real instruction
 example : 3000 < allowCount ∧ 1000 < excludeCount := by decide
-example : (unpack allow0).length = 64 := by decide +kernel
-example : ((unpack allow0).head?.bind decodeInstance).any (fun p => p.2 != [] && p.1.id != 0) = true := by decide +kernel
+example : (buckets.map fun b => (unpack b.2).length).sum = allowCount + excludeCount := by decide +kernel
+example : ((unpack AsmjitVerif.Gen.X86Bucket0.rows).head?.bind fun r => decodeInstance (r.drop 1)).any
+    (fun p => p.2 != [] && p.1.id != 0) = true := by decide +kernel
 
 end AsmjitVerif.C13X86
